@@ -270,3 +270,29 @@ MUTANTS["C03"] = [
     M("isa_imm_destination", "osaca/data/isa/x86.yml", "        - class: \"immediate\"\n          imd: \"int\"\n          source: true\n          destination: false", "        - class: \"immediate\"\n          imd: \"int\"\n          source: true\n          destination: true", "D1", first=True),
     M("isa_role_not_bool", "osaca/data/isa/aarch64.yml", "        source: false\n        destination: true\n", "        source: false\n        destination: yes please\n", "D1", first=True),
 ]
+
+MUTANTS["C11"] = [
+    M("comment_start_on_marker", MU, "                if comments[\"start\"] == line.comment:\n                    index_start = i + 1", "                if comments[\"start\"] == line.comment:\n                    index_start = i", "R1"),
+    M("comment_end_inclusive", MU, "                elif comments[\"end\"] == line.comment:\n                    index_end = i", "                elif comments[\"end\"] == line.comment:\n                    index_end = i + 1", "R1"),
+    M("byte_start_ignores_count", MU, "                        index_start = i + 1 + line_count", "                        index_start = i + 2", "R1"),
+    M("slice_inclusive", MU, "    return kernel[start:end]", "    return kernel[start : end + 1]", "R1"),
+    M("no_end_default", MU, "    if end == -1:\n        end = len(kernel)\n", "", "R1"),
+    M("count_not_advanced", MU, "        line_count += 1\n        extracted_bytes", "        extracted_bytes", "R1"),
+    M("byte_prefix_not_compared", MU, "    if extracted_bytes[0 : len(byte_list)] == byte_list:", "    if extracted_bytes:", "R1"),
+    M("start_ignores_register", MU, "                    isinstance(source, ImmediateOperand)\n                    and parser.normalize_imd(source) == mov_vals[0]\n                    and isinstance(destination, RegisterOperand)\n                    and parser.get_full_reg_name(destination) == mov_reg\n                ):",
+      "                    isinstance(source, ImmediateOperand)\n                    and parser.normalize_imd(source) == mov_vals[0]\n                    and isinstance(destination, RegisterOperand)\n                ):", "R2"),
+    M("end_uses_start_value", MU, "and parser.normalize_imd(source) == mov_vals[1]", "and parser.normalize_imd(source) == mov_vals[0]", "R2"),
+    M("end_without_bytes", MU, "                    # operand of first instruction match end, check for second one\n                    match, line_count = match_bytes(lines, i + 1, nop_bytes)\n                    if match:\n                        # return line of the marker\n                        index_end = i",
+      "                    # return line of the marker\n                    index_end = i", "R2"),
+    M("operands_not_reversed", MU, "source = line.operands[0 if not reverse else 1]", "source = line.operands[0]", "R2"),
+    M("x86_wrong_register", MU, '        ["mov", "movl"],\n        "ebx",', '        ["mov", "movl"],\n        "eax",', "R3"),
+    M("a64_wrong_bytes", MU, "    nop_bytes = [213, 3, 32, 31]", "    nop_bytes = [213, 3, 32]", "R3"),
+    M("end_value_changed", MU, '        "x1",\n        [111, 222],', '        "x1",\n        [111, 223],', "R3"),
+    M("comment_keyword_changed", MU, '"end": "OSACA-END"', '"end": "OSACA-STOP"', "R3"),
+    M("range_exclusive", CLI, "            rnge = list(range(start, end + 1))", "            rnge = list(range(start, end))", "R4"),
+    M("colon_not_accepted", CLI, '    line_str = line_str.replace(":", "-")\n', "", "R4"),
+    M("lines_by_index", CLI, "kernel = [line for line in parsed_code if line.line_number in line_range]", "kernel = [line for i, line in enumerate(parsed_code) if i in line_range]", "R4"),
+    M("label_gets_pressure", ARCH, "            instruction_form.port_pressure = [0.0 for i in range(port_number)]\n            instruction_form.port_uops = []\n        else:", "            instruction_form.port_pressure = [1.0 for i in range(port_number)]\n            instruction_form.port_uops = []\n        else:", "R5"),
+    M("summary_counts_all_lines", ARCH, "port_pressures = [instr.port_pressure for instr in kernel if instr.throughput != 0.0]", "port_pressures = [instr.port_pressure for instr in kernel]", "R5"),
+    M("src_dst_guard_dropped", ISA, "        if instruction_form.operands is None or instruction_form.mnemonic is None:", "        if instruction_form.operands is None:", "R5"),
+]
